@@ -15,6 +15,7 @@ import (
 	"encoding/json"
 	"fmt"
 	"os"
+	"runtime/debug"
 	"runtime/pprof"
 	"strconv"
 	"testing"
@@ -117,7 +118,7 @@ func workerMain() int {
 		bw.Flush()
 		sc := scenarioFor(cd, seed, idx, tier)
 		t0 := time.Now()
-		res := cd.Exec(sc, env)
+		res := safeExec(cd, sc, env)
 		res.Idx = idx
 		if res.WallMS == 0 {
 			res.WallMS = nowMS(t0)
@@ -163,7 +164,7 @@ func oneMain() int {
 	}
 	defer env.Close()
 	fmt.Fprintf(os.Stderr, "start\n")
-	res := cd.Exec(&sc, env)
+	res := safeExec(cd, &sc, env)
 	out, err := json.Marshal(res)
 	if err != nil {
 		sanitizeResult(res)
@@ -194,4 +195,14 @@ func sanitizeResult(r *Result) {
 	for i := range r.Violations {
 		fix(r.Violations[i].Values)
 	}
+}
+
+// safeExec turns a panic of the harness itself into a crash result (exit 2 territory, never a violation).
+func safeExec(cd *CheckDef, sc *Scenario, env *Env) (res *Result) {
+	defer func() {
+		if r := recover(); r != nil {
+			res = &Result{Idx: sc.Idx, Status: "crash", Note: fmt.Sprintf("harness panic: %v @ %s", r, shortPanic(string(debug.Stack())))}
+		}
+	}()
+	return cd.Exec(sc, env)
 }
